@@ -94,7 +94,16 @@ FamC == {MkTx(V1, ManyIns(n, w), ManyOuts(m), Max32N) : n \in CNT, m \in (IF Tie
 FamD == {MkTx(V1, <<In(Hash(1), Zero32N, Script(7, 1000000), Max32N, <<>>)>>, <<Out(A1, <<>>)>>, Zero32N),
          MkTx(V1, <<In(Hash(1), Zero32N, <<>>, Max32N, <<Item(1000000)>>)>>, <<Out(A1, Script(8, 70000))>>, Zero32N)}
 
-AllTx == FamA1 \cup FamA2 \cup FamB2 \cup FamB3 \cup FamAm \cup FamC \cup FamD
+\* K: coinbase-shaped transactions (null outpoint: hash 0, index 2^32-1), with and without the 32-byte
+\* witness reserved value of BIP141, and the two half-null outpoints.  Ids are defined for them like for
+\* any other transaction (the all-zero wtxid of BIP141 is the merkle LEAF a block uses, not Tx's wtxid).
+FamK == {MkTx(v, <<In(h, x, Script(3, l), q, w)>>, outs, Zero32N) :
+            v \in {V1, V2}, h \in {Hash(0), Hash(34)}, x \in {Max32N, Zero32N}, l \in {0, 2, 100}, q \in {Max32N, Zero32N},
+            w \in {<<>>, <<Item(32)>>, <<Item(0)>>},
+            outs \in {<<Out(A32, Script(118, 1))>>, <<Out(A32, Script(118, 1)), Out(A0, Script(106, 38))>>}}
+        \cup {MkTx(V1, <<In(Hash(0), Max32N, Script(3, 2), Max32N, <<Item(32)>>), InB(2, <<1, <<>>>>)>>, <<Out(A1, <<>>)>>, Zero32N)}
+
+AllTx == FamA1 \cup FamA2 \cup FamB2 \cup FamB3 \cup FamAm \cup FamC \cup FamD \cup FamK
 
 \* L: transactions put into Litecoin's MWEB-flagged form (flag 0x08 without, 0x09 with witness data):
 \* mixes of witness / non-witness inputs, every witness stack shape, 32-bit field boundaries, 252/253 stacks
